@@ -30,6 +30,7 @@ func (c *ctx) probeConn(i int) {
 	closed := false
 	closeStep := -1
 	deadlineFired := false
+	drain := c.drainSeq()
 	for _, e := range evs {
 		switch e.Kind {
 		case "invoke":
@@ -40,7 +41,7 @@ func (c *ctx) probeConn(i int) {
 			}
 			closed = true
 		case "read-end":
-			if e.S == "i/o timeout" {
+			if e.S == "i/o timeout" && e.Seq < drain {
 				deadlineFired = true
 			}
 		}
